@@ -209,7 +209,7 @@ class StmtMixin(ContractMixin):
                 st.frame.env.pop(t.id, None)
             elif isinstance(t, ast.Subscript):
                 obj = self.force(st, self.ev(t.value, st))
-                key = self.force(st, self.ev(t.slice, st))
+                key = self.force_key(st, self.ev(t.slice, st))
                 self.del_item(st, obj, key, t)
             else:
                 raise Unsupported("del target")
@@ -302,7 +302,7 @@ class StmtMixin(ContractMixin):
                 return  # write into the debug store: dropped by the extraction
             if isinstance(t.slice, ast.Slice):
                 raise Unsupported("slice assignment")
-            key = self.force(st, self.ev(t.slice, st))
+            key = self.force_key(st, self.ev(t.slice, st))
             if isinstance(obj, VFunc) and obj.kind == "objdict":
                 ok, name = pyconst(key)
                 if not ok:
@@ -352,7 +352,7 @@ class StmtMixin(ContractMixin):
         if isinstance(t, ast.Subscript) and st.rec and isinstance(s.op, (ast.Add, ast.Sub)):
             # accumulation into an outer container cell: log as 'add'
             obj = self.force(st, self.ev(t.value, st))
-            key = self.force(st, self.ev(t.slice, st))
+            key = self.force_key(st, self.ev(t.slice, st))
             if isinstance(obj, VRef) and obj.root not in st.rec[-1].fresh:
                 ref = self.canon_prefix(st, VRef(obj.root, obj.path + (("k", key),)))
                 delta = rhs if isinstance(s.op, ast.Add) else self.binop(st, ast.Sub(), VInt(0), rhs)
